@@ -3,8 +3,14 @@
 package confgen
 
 import (
+	"github.com/tableauio/tableau/format"
+	"github.com/tableauio/tableau/internal/importer/book"
+	"github.com/tableauio/tableau/internal/strcase"
 	"github.com/tableauio/tableau/proto/tableaupb"
+	"google.golang.org/protobuf/proto"
 	"google.golang.org/protobuf/reflect/protoreflect"
+	"google.golang.org/protobuf/reflect/protoregistry"
+	"google.golang.org/protobuf/types/dynamicpb"
 )
 
 // VerifFieldSeps returns the separators the sheet parser resolves for a field
@@ -32,4 +38,17 @@ func VerifFieldView(sp *sheetParser, fd protoreflect.FieldDescriptor) (opts *tab
 	sep, subsep = field.sep, field.subsep
 	field.release()
 	return o, sep, subsep
+}
+
+// VerifTableParse parses the rows of one table sheet against a message
+// descriptor with the real table parser (no files involved).
+func VerifTableParse(md protoreflect.MessageDescriptor, bookOpts *tableaupb.WorkbookOptions, sheetOpts *tableaupb.WorksheetOptions,
+	sheetName string, rows [][]string, bookFormat format.Format) (proto.Message, error) {
+	ext := &SheetParserExtInfo{BookFormat: bookFormat, PRFiles: &protoregistry.Files{}}
+	sp := NewExtendedSheetParser("protoconf", "UTC", strcase.Context{}, bookOpts, sheetOpts, ext)
+	msg := dynamicpb.NewMessage(md)
+	if err := sp.Parse(msg, book.NewTableSheet(sheetName, rows)); err != nil {
+		return nil, err
+	}
+	return msg, nil
 }
